@@ -28,7 +28,8 @@ RULE = ("call histories (one process per shard, 75-300 calls each) mixing anneal
         "incl. None; run under clang ASan+UBSan (halt_on_error=0, reports attributed to the call that produced them), a "
         "Python-side precondition contract on every c_anneal_* call, the H2 in-kernel index assertions, and a fixed "
         "reference call repeated at the end of every history. Non-trivial = call that reached the C kernel with >= 2 "
-        "spins and >= 1 sweep; distinct = digest of (function, type, terms, kwargs)")
+        "spins and >= 1 sweep; distinct = digest of (function, type, terms, kwargs)"
+        ' Also: schedules of Fractions / numpy scalars / Decimals / big ints, reference accounting (sys.getrefcount of every argument object and list item before/after each kernel call), an interval-timer signal with a raising handler during long calls, boundary sizes 1..70 / 127..129 / 255..257, a leak probe, libFuzzer on the kernels, valgrind memcheck on a subset.')
 TIERS = {"quick": {"shards": 8, "cases": 110, "timeout": 1500, "fuzz_jobs": 4, "fuzz_runs": 150000,
                    "valgrind_shards": 3, "valgrind_cases": 25},
          "thorough": {"shards": 16, "cases": 5000, "timeout": 6 * 3600, "valgrind_shards": 8, "valgrind_cases": 40,
